@@ -88,31 +88,34 @@ def main():
         x = rng.normal(0, 1, size=(2, 9, 8, ci)).astype(np.float32)
         wq = ["kernel_quantizer_internal", "bias_quantizer_internal"]
       elif kind == "depthwise":
-        kh, s, dm = int(rng.integers(1, 4)), int(rng.integers(1, 3)), int(rng.integers(1, 3))
+        kh, kw, s, dm = int(rng.integers(1, 4)), int(rng.integers(1, 4)), int(rng.integers(1, 3)), int(rng.integers(1, 3))
         pad = pick(rng, ["valid", "same"])
-        desc.update(kh=kh, s=s, dm=dm, pad=pad)
-        ql = qkeras.QDepthwiseConv2D((kh, kh), strides=s, padding=pad, depth_multiplier=dm, use_bias=use_bias,
+        d = 1 if s > 1 else int(rng.integers(1, 3))
+        desc.update(kh=kh, kw=kw, s=s, dm=dm, pad=pad, d=d)
+        ql = qkeras.QDepthwiseConv2D((kh, kw), strides=s, padding=pad, depth_multiplier=dm, dilation_rate=d, use_bias=use_bias,
                                      depthwise_quantizer=kq, bias_quantizer=bq, activation=aq)
-        ref = L.DepthwiseConv2D((kh, kh), strides=s, padding=pad, depth_multiplier=dm, use_bias=use_bias)
+        ref = L.DepthwiseConv2D((kh, kw), strides=s, padding=pad, depth_multiplier=dm, dilation_rate=d, use_bias=use_bias)
         x = rng.normal(0, 1, size=(2, 8, 8, int(rng.integers(1, 4)))).astype(np.float32)
         wq = ["depthwise_quantizer_internal", "bias_quantizer_internal"]
       elif kind in ("sep2d", "sep1d"):
         causal_pad = 0
         f, k, dm = int(rng.integers(1, 6)), int(rng.integers(1, 4)), int(rng.integers(1, 3))
         pq = pick(rng, QS)
-        desc.update(filters=f, k=k, dm=dm, pq=pq)
+        ss = int(rng.integers(1, 3))
+        sd = 1 if ss > 1 else int(rng.integers(1, 3))
+        desc.update(filters=f, k=k, dm=dm, pq=pq, s=ss, d=sd)
         if kind == "sep2d":
           pad = pick(rng, ["valid", "same"])
-          ql = qkeras.QSeparableConv2D(f, (k, k), padding=pad, depth_multiplier=dm, use_bias=use_bias, depthwise_quantizer=kq,
+          ql = qkeras.QSeparableConv2D(f, (k, k), strides=ss, dilation_rate=sd, padding=pad, depth_multiplier=dm, use_bias=use_bias, depthwise_quantizer=kq,
                                        pointwise_quantizer=pq, bias_quantizer=bq, activation=aq)
-          ref = L.SeparableConv2D(f, (k, k), padding=pad, depth_multiplier=dm, use_bias=use_bias)
+          ref = L.SeparableConv2D(f, (k, k), strides=ss, dilation_rate=sd, padding=pad, depth_multiplier=dm, use_bias=use_bias)
           x = rng.normal(0, 1, size=(2, 8, 7, int(rng.integers(1, 4)))).astype(np.float32)
         else:
           pad = pick(rng, ["valid", "same"])   # the pinned Keras 3 base class rejects 'causal' for separable layers
-          ql = qkeras.QSeparableConv1D(f, k, padding=pad, depth_multiplier=dm, use_bias=use_bias, depthwise_quantizer=kq,
+          ql = qkeras.QSeparableConv1D(f, k, strides=ss, dilation_rate=sd, padding=pad, depth_multiplier=dm, use_bias=use_bias, depthwise_quantizer=kq,
                                        pointwise_quantizer=pq, bias_quantizer=bq, activation=aq)
           # the stock Keras-3 SeparableConv1D has no 'causal' mode: the reference pads on the left and runs 'valid'
-          ref = L.SeparableConv1D(f, k, padding=("valid" if pad == "causal" else pad), depth_multiplier=dm, use_bias=use_bias)
+          ref = L.SeparableConv1D(f, k, strides=ss, dilation_rate=sd, padding=("valid" if pad == "causal" else pad), depth_multiplier=dm, use_bias=use_bias)
           x = rng.normal(0, 1, size=(2, 10, int(rng.integers(1, 4)))).astype(np.float32)
           causal_pad = (k - 1) if pad == "causal" else 0
         desc.update(pad=pad)
